@@ -33,6 +33,8 @@ import (
 	"go/constant"
 	"go/token"
 	"go/types"
+	"os"
+	"path/filepath"
 	"sort"
 	"strings"
 )
@@ -49,6 +51,8 @@ type kernelSpec struct {
 var kernelFuelExpr = map[string]string{
 	"jpeg2000/colorspace||ApplyRCTToComponents":        "S (length r)",
 	"jpeg2000/colorspace||ApplyInverseRCTToComponents": "S (length y)",
+	"jpeg2000/wavelet||Forward53_1DWithParity":         "S (length data)",
+	"jpeg2000/wavelet||Inverse53_1DWithParity":         "S (length data)",
 }
 
 func (s kernelSpec) fuelExpr() string { return kernelFuelExpr[kkey(s.Dir, s.Recv, s.Name)] }
@@ -105,8 +109,18 @@ type kfunc struct {
 	recvNm string
 	ptr    bool
 	named  []string // named results (a bare return returns them)
-	// parameters of slice type: writing through them is visible to the caller and not supported
+	// parameters of slice type; those written through (s[i] = v, copy(s[a:], ..)) are returned, updated, after
+	// the declared results, in parameter order (the caller sees the update through the shared backing array)
 	paramSlices map[string]bool
+	paramOrder  []string
+	mutated     map[string]bool
+}
+
+func (k *kfunc) noteMutated(n string) {
+	if k.mutated == nil {
+		k.mutated = map[string]bool{}
+	}
+	k.mutated[n] = true
 }
 
 type kgen struct {
@@ -533,6 +547,29 @@ func (g *kgen) call(x *ast.CallExpr) string {
 	return "0"
 }
 
+// copyArg splits an argument of copy() of the forms s, s[a:], s[a:b] into (slice identifier, low, high as Gallina
+// terms); ok is false for any other form.
+func (g *kgen) copyArg(e ast.Expr) (id *ast.Ident, low, high string, lowE, highE ast.Expr, ok bool) {
+	switch x := e.(type) {
+	case *ast.Ident:
+		return x, "0", "(zlen " + cid(x.Name) + ")", nil, nil, true
+	case *ast.SliceExpr:
+		i, isId := x.X.(*ast.Ident)
+		if !isId || x.Max != nil {
+			return nil, "", "", nil, nil, false
+		}
+		low, high = "0", "(zlen "+cid(i.Name)+")"
+		if x.Low != nil {
+			low = g.expr(x.Low)
+		}
+		if x.High != nil {
+			high = g.expr(x.High)
+		}
+		return i, low, high, x.Low, x.High, true
+	}
+	return nil, "", "", nil, nil, false
+}
+
 // ---- bounds checks of slices ----
 
 // exprGuards collects the run-time checks Go performs while evaluating e: index in range, make length
@@ -612,6 +649,21 @@ func (g *kgen) stmtGuards(s ast.Stmt) []string {
 		if x.Init == nil {
 			g.exprGuards(x.Cond, false, &out)
 		}
+	case *ast.ExprStmt:
+		if ce, ok := x.X.(*ast.CallExpr); ok {
+			if id, ok := ce.Fun.(*ast.Ident); ok && id.Name == "copy" && len(ce.Args) == 2 {
+				di, dl, dh, dlE, dhE, dok := g.copyArg(ce.Args[0])
+				si, sl, sh, slE, shE, sok := g.copyArg(ce.Args[1])
+				if dok && sok {
+					for _, e := range []ast.Expr{dlE, dhE, slE, shE} {
+						g.exprGuards(e, false, &out)
+					}
+					// slice expressions: 0 <= low <= high <= cap; the capacity of every slice is taken to be its length
+					out = append(out, "((0 <=? "+dl+") && ("+dl+" <=? "+dh+") && ("+dh+" <=? zlen "+cid(di.Name)+"))")
+					out = append(out, "((0 <=? "+sl+") && ("+sl+" <=? "+sh+") && ("+sh+" <=? zlen "+cid(si.Name)+"))")
+				}
+			}
+		}
 	}
 	return out
 }
@@ -687,7 +739,7 @@ func (g *kgen) lhsVars(e ast.Expr) []kvar {
 		if id, ok := x.X.(*ast.Ident); ok {
 			if t := g.tyOf(g.typeOfExpr(id), x.Pos()); t.kind == "list" {
 				if g.cur.paramSlices[cid(id.Name)] {
-					g.fail(x.Pos(), "in-place update of a parameter slice (the caller would see it)")
+					g.cur.noteMutated(cid(id.Name))
 				}
 				return []kvar{{cid(id.Name), t}}
 			}
@@ -726,6 +778,19 @@ func (g *kgen) assigned(n ast.Node, sc kscope) []kvar {
 			}
 		case *ast.IncDecStmt:
 			add(s.X)
+		case *ast.ExprStmt:
+			if ce, ok := s.X.(*ast.CallExpr); ok {
+				if id, ok := ce.Fun.(*ast.Ident); ok && id.Name == "copy" && len(ce.Args) == 2 {
+					if d, ok := ce.Args[0].(*ast.SliceExpr); ok {
+						if di, ok := d.X.(*ast.Ident); ok {
+							set[cid(di.Name)] = true
+						}
+					}
+					if di, ok := ce.Args[0].(*ast.Ident); ok {
+						set[cid(di.Name)] = true
+					}
+				}
+			}
 		}
 		return true
 	})
@@ -797,6 +862,11 @@ func (g *kgen) results(rs []ast.Expr) string {
 	}
 	if len(rs) == 0 {
 		parts = append(parts, g.cur.named...)
+	}
+	for _, n := range g.cur.paramOrder {
+		if g.cur.mutated[n] {
+			parts = append(parts, n)
+		}
 	}
 	if g.cur.ptr {
 		rt := g.tyOf(g.typeOfExpr(g.cur.decl.Recv.List[0].Names[0]), token.NoPos)
@@ -904,6 +974,23 @@ func (g *kgen) stmt(s ast.Stmt, rest []ast.Stmt, sc kscope, tail func(kscope) st
 		return g.assign(x, sc, cont)
 	case *ast.IfStmt:
 		return g.ifStmt(x, sc, cont)
+	case *ast.ExprStmt:
+		// copy(dst[a:], src[b:c]) and its shorter forms
+		if ce, ok := x.X.(*ast.CallExpr); ok {
+			if id, ok := ce.Fun.(*ast.Ident); ok && id.Name == "copy" && len(ce.Args) == 2 {
+				di, dl, dh, _, _, dok := g.copyArg(ce.Args[0])
+				si, sl, sh, _, _, sok := g.copyArg(ce.Args[1])
+				if dok && sok {
+					dv := cid(di.Name)
+					if g.cur.paramSlices[dv] {
+						g.cur.noteMutated(dv)
+					}
+					return "let " + dv + " := go_copy " + dv + " " + dl + " " + dh + " " + cid(si.Name) + " " + sl + " " + sh + " in\n  " + cont(sc)
+				}
+			}
+		}
+		g.fail(s.Pos(), "unsupported expression statement")
+		return "0"
 	case *ast.SwitchStmt:
 		return g.block(append([]ast.Stmt{g.switchToIf(x)}, rest...), sc, tail)
 	case *ast.ForStmt:
@@ -1069,8 +1156,8 @@ func (g *kgen) ifStmt(x *ast.IfStmt, sc kscope, cont func(kscope) string) string
 	case *ast.IfStmt:
 		elseStmts = []ast.Stmt{e}
 	}
-	if hasReturn(x) {
-		// a branch may leave the function: duplicate the continuation
+	if hasReturn(x) || (g.cur.opt && g.needsMonad(x)) {
+		// a branch may leave the function (return, failed bounds check, loop out of fuel): duplicate the continuation
 		k := func(kscope) string { return cont(sc) }
 		return "if " + cond + " then (" + g.block(x.Body.List, sc, k) + ")\n  else (" + g.block(elseStmts, sc, k) + ")"
 	}
@@ -1080,6 +1167,27 @@ func (g *kgen) ifStmt(x *ast.IfStmt, sc kscope, cont func(kscope) string) string
 	}
 	k := func(kscope) string { return tuple(vs) }
 	return "let " + pattern(vs) + " := (if " + cond + " then (" + g.block(x.Body.List, sc, k) + ")\n    else (" + g.block(elseStmts, sc, k) + ")) in\n  " + cont(sc)
+}
+
+// needsMonad: the statement contains something whose translation is option-valued (bounds check, make, copy,
+// loop, call of an option-valued kernel)
+func (g *kgen) needsMonad(n ast.Node) bool {
+	found := false
+	ast.Inspect(n, func(m ast.Node) bool {
+		switch x := m.(type) {
+		case *ast.IndexExpr, *ast.ForStmt, *ast.SliceExpr:
+			found = true
+		case *ast.CallExpr:
+			if id, ok := x.Fun.(*ast.Ident); ok && (id.Name == "make" || id.Name == "copy") {
+				found = true
+			}
+			if c := g.calleeOf(x); c != nil && c.opt {
+				found = true
+			}
+		}
+		return !found
+	})
+	return found
 }
 
 // switchToIf rewrites a switch without fallthrough into an if chain
@@ -1294,6 +1402,7 @@ func (g *kgen) translate(k *kfunc) {
 					k.paramSlices = map[string]bool{}
 				}
 				k.paramSlices[cid(n.Name)] = true
+				k.paramOrder = append(k.paramOrder, cid(n.Name))
 			}
 			params = append(params, fmt.Sprintf("(%s : %s)", cid(n.Name), t.coq()))
 			// parameters of sized integer types arrive already in range
@@ -1321,6 +1430,38 @@ func (g *kgen) translate(k *kfunc) {
 			}
 		}
 	}
+	// which parameter slices does the body write through?  (must be known before the first return is emitted)
+	ast.Inspect(fd.Body, func(n ast.Node) bool {
+		mark := func(e ast.Expr) {
+			switch t := e.(type) {
+			case *ast.IndexExpr:
+				if id, ok := t.X.(*ast.Ident); ok && k.paramSlices[cid(id.Name)] {
+					k.noteMutated(cid(id.Name))
+				}
+			case *ast.SliceExpr:
+				if id, ok := t.X.(*ast.Ident); ok && k.paramSlices[cid(id.Name)] {
+					k.noteMutated(cid(id.Name))
+				}
+			case *ast.Ident:
+				if k.paramSlices[cid(t.Name)] {
+					k.noteMutated(cid(t.Name))
+				}
+			}
+		}
+		switch a := n.(type) {
+		case *ast.AssignStmt:
+			for _, l := range a.Lhs {
+				mark(l)
+			}
+		case *ast.IncDecStmt:
+			mark(a.X)
+		case *ast.CallExpr:
+			if id, ok := a.Fun.(*ast.Ident); ok && id.Name == "copy" && len(a.Args) == 2 {
+				mark(a.Args[0])
+			}
+		}
+		return true
+	})
 	body := g.block(fd.Body.List, sc, func(kscope) string { return g.implicitReturn() })
 	pos := k.pkg.Fset.Position(fd.Pos())
 	hdr := fmt.Sprintf("(* %s:%d  func %s *)\n", strings.TrimPrefix(pos.Filename, repo+"/"), pos.Line, k.spec.Name)
@@ -1329,6 +1470,16 @@ func (g *kgen) translate(k *kfunc) {
 
 // runKernels translates one configured list into one generated file.
 func runKernels(specs []kernelSpec, outFile string, requires string) error {
+	err := runKernels1(specs, outFile, requires)
+	if err != nil {
+		// a kernel left the subset (or disappeared): a stale translation must not keep the tie theorems
+		// provable, so the file goes and everything that depends on it stops building
+		_ = os.Remove(filepath.Join(outDir, outFile))
+	}
+	return err
+}
+
+func runKernels1(specs []kernelSpec, outFile string, requires string) error {
 	g := &kgen{funcs: map[string]*kfunc{}, structs: map[string]*types.Struct{}}
 	var keys []string
 	for _, s := range specs {
@@ -1475,4 +1626,6 @@ var kernelSpecsSlices = []kernelSpec{
 	{"jpeg2000/colorspace", "", "RCTInverse", 0},
 	{"jpeg2000/colorspace", "", "ApplyRCTToComponents", 0},
 	{"jpeg2000/colorspace", "", "ApplyInverseRCTToComponents", 0},
+	{"jpeg2000/wavelet", "", "Forward53_1DWithParity", 0},
+	{"jpeg2000/wavelet", "", "Inverse53_1DWithParity", 0},
 }
